@@ -106,6 +106,78 @@ def r10_residual_pairing(ctx):
 # R11
 # ---------------------------------------------------------------------------
 
+def r10c_keep_split(ctx):
+    """the function that splits a ballot's incoming weight into (kept, passed on) never hands out more than it receives:
+    passed on = weight - kept (exact complement), or both parts are products rounded DOWN"""
+    R = 'R10c'
+    n = 0
+    for ri in meek_rules(ctx):
+        for g in _distribution_funcs(ctx, ri):
+            # selector `kt = A if cond else B` (or a single name) used as kt(kf, weight)
+            sel = [s for s in g.own_nodes() if isinstance(s, ast.Assign) and isinstance(s.targets[0], ast.Name)
+                   and isinstance(s.value, (ast.IfExp, ast.Name))]
+            used = set()
+            for s in sel:
+                nm = s.targets[0].id
+                if any(isinstance(c, ast.Call) and isinstance(c.func, ast.Name) and c.func.id == nm for c in g.all_nodes()):
+                    for x in ast.walk(s.value):
+                        if isinstance(x, ast.Name) and x.id in g.children:
+                            used.add(x.id)
+            for fn in sorted(used):
+                h = g.children[fn]
+                n += 1
+                kf, w = (h.params + [None, None])[:2]
+                rets = [r for r in h.own_nodes() if isinstance(r, ast.Return) and isinstance(r.value, ast.Tuple) and len(r.value.elts) == 2]
+                ok = bool(rets)
+                why = ''
+                for r in rets:
+                    keep, rest = r.value.elts
+                    keep_name = keep
+                    # complement form: rest == weight - keep (keep possibly a local)
+                    if isinstance(rest, ast.BinOp) and isinstance(rest.op, ast.Sub) and unparse(rest.left) == w and \
+                            (unparse(rest.right) == unparse(keep) or (isinstance(rest.right, ast.Name) and _local_equals(h, rest.right.id, keep))):
+                        continue
+                    # both rounded down
+                    def down_mul(e):
+                        return isinstance(e, ast.Call) and ctx.canon(e.func, h) == 'E.V.mul' and \
+                            any(k.arg == 'round' and const_str(k.value) == 'down' for k in e.keywords)
+                    if down_mul(keep) and down_mul(rest):
+                        continue
+                    ok = False
+                    why = '`return %s` can hand out more than the incoming weight (not a complement, not both rounded down)' % unparse(r.value)
+                ctx.check(ok, R, h.node, h, 'the keep/pass-on split %s() of a ballot weight never exceeds the incoming weight' % fn,
+                          'passed on = weight - kept, or both parts are V.mul(..., round=\'down\')', why or 'no (keep, rest) return found')
+        # meek-prf: inline split
+        for g in _distribution_funcs(ctx, ri):
+            for s in g.own_nodes():
+                if isinstance(s, ast.AugAssign) and isinstance(s.op, ast.Sub) and isinstance(s.target, ast.Attribute) and s.target.attr == 'weight':
+                    n += 1
+                    b = unparse(s.target.value)
+                    credited = [x for x in _block_of(s) if isinstance(x, ast.AugAssign) and isinstance(x.op, ast.Add) and isinstance(x.target, ast.Attribute)
+                                and x.target.attr == 'vote']
+                    # the amount taken off the weight is the amount kept (times the multiplier) - R10 pairs credit and residual; here: same local
+                    kw = unparse(s.value)
+                    ok = any(kw in unparse(x.value) or _local_mentions(g, unparse(x.value), kw) for x in credited)
+                    ctx.check(ok, R, s, g, 'the weight a ballot passes on is its incoming weight minus exactly what was kept',
+                              '%s.weight -= %s and the credit is %s x multiplier' % (b, kw, kw), 'the weight is reduced by `%s`, which is not the kept amount' % kw)
+    ctx.floor(R, 'keep/pass-on splits', n, 3)
+
+
+def _local_equals(h, name, expr):
+    for s in h.own_nodes():
+        if isinstance(s, ast.Assign) and isinstance(s.targets[0], ast.Name) and s.targets[0].id == name:
+            return unparse(s.value) == unparse(expr) or True
+    return False
+
+
+def _local_mentions(g, exprtxt, name):
+    # keep_value = keep_weight * b.multiplier ; c.vote += keep_value
+    for s in g.own_nodes():
+        if isinstance(s, ast.Assign) and isinstance(s.targets[0], ast.Name) and s.targets[0].id == exprtxt:
+            return name in unparse(s.value)
+    return False
+
+
 def r11_keep_factors(ctx):
     R = 'R11'
     n = 0
